@@ -70,6 +70,11 @@ pub trait Proto {
     /// consuming calls: the iterator is left empty
     fn last(&mut self) -> Option<Y>;
     fn count(&mut self) -> usize;
+    /// internal iteration (consuming): everything `fold` / `for_each` passes to its closure, in that order
+    fn fold_all(&mut self) -> Vec<Y>;
+    fn for_each_all(&mut self) -> Vec<Y>;
+    /// None = rfold not offered
+    fn rfold_all(&mut self) -> Option<Vec<Y>>;
 }
 /// (the iterator sits in an Option so that the consuming methods `last` / `count` can be called on the
 /// iterator itself - through `by_ref()` an override of them would never run)
@@ -101,6 +106,19 @@ where
     }
     fn count(&mut self) -> usize {
         self.0.take().map(|i| i.count()).unwrap_or(0)
+    }
+    fn fold_all(&mut self) -> Vec<Y> {
+        self.0.take().map(|i| i.fold(Vec::new(), |mut v, x| { v.push(x.y()); v })).unwrap_or_default()
+    }
+    fn for_each_all(&mut self) -> Vec<Y> {
+        let mut v = Vec::new();
+        if let Some(i) = self.0.take() {
+            i.for_each(|x| v.push(x.y()));
+        }
+        v
+    }
+    fn rfold_all(&mut self) -> Option<Vec<Y>> {
+        None
     }
 }
 /// (the iterator sits in an Option so that the consuming methods `last` / `count` can be called on the
@@ -134,6 +152,19 @@ where
     fn count(&mut self) -> usize {
         self.0.take().map(|i| i.count()).unwrap_or(0)
     }
+    fn fold_all(&mut self) -> Vec<Y> {
+        self.0.take().map(|i| i.fold(Vec::new(), |mut v, x| { v.push(x.y()); v })).unwrap_or_default()
+    }
+    fn for_each_all(&mut self) -> Vec<Y> {
+        let mut v = Vec::new();
+        if let Some(i) = self.0.take() {
+            i.for_each(|x| v.push(x.y()));
+        }
+        v
+    }
+    fn rfold_all(&mut self) -> Option<Vec<Y>> {
+        None
+    }
 }
 /// (the iterator sits in an Option so that the consuming methods `last` / `count` can be called on the
 /// iterator itself - through `by_ref()` an override of them would never run)
@@ -166,6 +197,19 @@ where
     fn count(&mut self) -> usize {
         self.0.take().map(|i| i.count()).unwrap_or(0)
     }
+    fn fold_all(&mut self) -> Vec<Y> {
+        self.0.take().map(|i| i.fold(Vec::new(), |mut v, x| { v.push(x.y()); v })).unwrap_or_default()
+    }
+    fn for_each_all(&mut self) -> Vec<Y> {
+        let mut v = Vec::new();
+        if let Some(i) = self.0.take() {
+            i.for_each(|x| v.push(x.y()));
+        }
+        v
+    }
+    fn rfold_all(&mut self) -> Option<Vec<Y>> {
+        Some(self.0.take().map(|i| i.rfold(Vec::new(), |mut v, x| { v.push(x.y()); v })).unwrap_or_default())
+    }
 }
 /// (the iterator sits in an Option so that the consuming methods `last` / `count` can be called on the
 /// iterator itself - through `by_ref()` an override of them would never run)
@@ -197,6 +241,19 @@ where
     }
     fn count(&mut self) -> usize {
         self.0.take().map(|i| i.count()).unwrap_or(0)
+    }
+    fn fold_all(&mut self) -> Vec<Y> {
+        self.0.take().map(|i| i.fold(Vec::new(), |mut v, x| { v.push(x.y()); v })).unwrap_or_default()
+    }
+    fn for_each_all(&mut self) -> Vec<Y> {
+        let mut v = Vec::new();
+        if let Some(i) = self.0.take() {
+            i.for_each(|x| v.push(x.y()));
+        }
+        v
+    }
+    fn rfold_all(&mut self) -> Option<Vec<Y>> {
+        Some(self.0.take().map(|i| i.rfold(Vec::new(), |mut v, x| { v.push(x.y()); v })).unwrap_or_default())
     }
 }
 
